@@ -226,6 +226,84 @@ fn sweep(tier: &str, progress: &mut dyn FnMut(&str)) -> (serde_json::Map<String,
         }
     }
 
+    // --- every shape of the stated range (0..=50 entries x 1..=8 targets) and some far larger ones:
+    //     round trip through ruler's writer and reader; structured cuts of the large serialisations
+    let mut shapes = 0u64;
+    let mut big_cuts = 0u64;
+    {
+        let mut dims: Vec<(usize, usize)> = vec![];
+        for n in 0..=50usize { for k in 1..=8usize { dims.push((n, k)); } }
+        for d in [(99usize, 1usize), (203, 1), (256, 1), (257, 3), (500, 8), (1200, 1)] { dims.push(d); }
+        if thorough { dims.push((5000, 2)); }
+        for (n, k) in dims
+        {
+            shapes += 1;
+            evals += 1;
+            progress(&format!("rule history with {} entries of {} targets", n, k));
+            let mut h = RuleHistory::new();
+            for e in 0..n
+            {
+                let v = FileStateVec::from_ticket_vec((0..k).map(|t| ticket(100_000 + e * k + t)).collect());
+                let _ = h.insert(ticket(e), v);
+            }
+            let sys = fresh_sys();
+            let name = ticket(99_999);
+            let mut hist = History::new(sys.clone(), HISTORY_DIR);
+            if hist.write_rule_history(name.clone(), h.clone()).is_err() { bad.add("writing a rule history failed", format!("{} entries of {} targets", n, k)); continue; }
+            match std::panic::catch_unwind(|| History::new(sys.clone(), HISTORY_DIR).read_rule_history(&name))
+            {
+                Ok(Ok(b)) => if b != h { bad.add("a rule history is not read back identically", format!("{} entries of {} targets", n, k)); },
+                Ok(Err(e)) => bad.add("a rule history just written cannot be read", format!("{} entries of {} targets: {}", n, k, e)),
+                Err(_) => bad.add("reading a rule history just written panics", format!("{} entries of {} targets", n, k)),
+            }
+            let bytes: Vec<u8> = sys.with(|i| i.fs.read(&format!("{}/{}", HISTORY_DIR, name)).map(|b| (*b).clone()).unwrap_or_default());
+            if bytes.len() > 2000 && n >= 99
+            {
+                let mut cuts: Vec<usize> = (0..64).collect();
+                cuts.extend((bytes.len() - 64)..bytes.len());
+                let mut p = 256usize;
+                while p < bytes.len() { for d in [p - 1, p, p + 1] { if d < bytes.len() { cuts.push(d); } } p *= 2; }
+                let mut m = 4096usize;
+                while m < bytes.len() { cuts.push(m); m += 4096; }
+                cuts.sort();
+                cuts.dedup();
+                for cut in cuts
+                {
+                    big_cuts += 1;
+                    prefixes += 1;
+                    evals += 1;
+                    progress(&format!("rule history of {} bytes, prefix {}", bytes.len(), cut));
+                    match read_history(&bytes[..cut])
+                    {
+                        Err(()) => bad.add("reading a truncated rule history panics", format!("prefix {} of {}", cut, bytes.len())),
+                        Ok(Ok(_)) => bad.add("a strict prefix of a rule history is accepted as valid", format!("prefix {} of {}", cut, bytes.len())),
+                        Ok(Err(_)) => {},
+                    }
+                }
+            }
+        }
+        for n in (0..=50usize).chain([300usize, 2000])
+        {
+            shapes += 1;
+            evals += 1;
+            progress(&format!("file-state table with {} paths", n));
+            let sys = fresh_sys();
+            let t: Vec<(String, FileState)> = (0..n).map(|i| (format!("dir{}/file-{}.o", i % 7, i), FileState { ticket: ticket(i), timestamp: 1_000_000 + i as u64, executable: i % 3 == 0 })).collect();
+            {
+                let mut c = match CurrentFileStates::from_file(sys.clone(), TABLE_FILE.to_string()) { Ok(c) => c, Err(e) => { bad.add("creating a table failed", format!("{}", e)); continue; } };
+                for (p, st) in &t { c.insert_file_state(p.clone(), st.clone()); }
+                if c.to_file().is_err() { bad.add("writing the table failed", format!("{} paths", n)); continue; }
+            }
+            let bytes: Vec<u8> = sys.with(|i| i.fs.read(TABLE_FILE).map(|b| (*b).clone()).unwrap_or_default());
+            match read_table(&bytes, t.iter().map(|x| x.0.clone()).collect())
+            {
+                Ok(Ok(states)) => if states != t.iter().map(|x| x.1.clone()).collect::<Vec<_>>() { bad.add("the file-state table is not read back identically", format!("{} paths", n)); },
+                Ok(Err(e)) => bad.add("a table just written cannot be read", format!("{} paths: {}", n, e)),
+                Err(()) => bad.add("reading a table just written panics", format!("{} paths", n)),
+            }
+        }
+    }
+
     // --- arbitrary bytes: every string of length <= 2, constant strings of length 0..64
     let mut arbitrary = 0u64;
     let mut tiny: Vec<Vec<u8>> = vec![vec![]];
@@ -262,8 +340,10 @@ fn sweep(tier: &str, progress: &mut dyn FnMut(&str)) -> (serde_json::Map<String,
     set("single_bit_flips", json!(flips));
     set("bit_flips_read_as_wellformed_other_data", json!(flips_accepted));
     set("arbitrary_byte_strings", json!(arbitrary));
+    set("round_trip_shapes", json!(shapes));
+    set("structured_prefixes_of_large_files", json!(big_cuts));
     set("exhaustive", json!(true));
-    set("rule", json!("rule histories with 0..3 entries x 1..3 targets and tables with 0..3 paths from a fixed pool: round trip, every strict prefix, every single-bit flip; all byte strings of length <= 2; constant strings of length 0..64; run in a child process with a 6 GB address-space limit so that an allocation bomb is a verdict, not a crash of the checker"));
+    set("rule", json!("rule histories with 0..3 entries x 1..3 targets and tables with 0..3 paths from a fixed pool: round trip, every strict prefix, every single-bit flip; round trip of every shape 0..50 entries x 1..8 targets, of tables with 0..50 paths and of a few far larger ones (up to 1200 entries / 2000 paths; structured prefixes of those: first and last 64 cuts, powers of two +-1, multiples of 4096); all byte strings of length <= 2; constant strings of length 0..64; run in a child process with a 6 GB address-space limit so that an allocation bomb is a verdict, not a crash of the checker"));
     samples.push(json!({"history_entries": 2, "targets": 3, "check": "every strict prefix of its bytes is rejected"}));
     samples.push(json!({"table_paths": ["t", "build/out.o", "a b"], "check": "every single-bit flip gives an error or well-formed other data"}));
     rep_map.insert("samples".to_string(), json!(samples));
